@@ -96,6 +96,17 @@ theorem C12_localonly_true_drops_exactly_propagated (c : Cls) (f : Flags) (hlo :
   rw [applyFlags_eq]
   simp [stageLocal, hlo, hpl, filterProps, localOnly, truthy, List.map_map, Function.comp_def, hk]
 
+/-- **PropertyList selects properties by name, case-insensitively, and nothing else**: the
+    properties kept are those LocalOnly keeps whose name is in the list; methods are not affected. -/
+theorem C12_property_list_exact (c : Cls) (f : Flags) (l : List Name) (hpl : f.pl = some l) :
+    (applyFlags c f).props.map (·.name) =
+      (((if f.lo == some false then c else localOnly c).props).filter
+        (fun p => (l.map lower).contains (lower p.name))).map (·.name) ∧
+    (applyFlags c f).meths.map (·.name) = ((if f.lo == some false then c else localOnly c).meths).map (·.name) := by
+  rw [applyFlags_eq]
+  simp only [stageLocal, hpl, filterProps, List.map_map]
+  constructor <;> (apply List.map_congr_left; intro a _; simp [keepE_name])
+
 /-! ### the hierarchy: forest invariant, enumerations, DeleteClass, EnumerateInstances -/
 
 /-- **Forest invariant** (also the termination argument of the code's recursion over subclasses and
@@ -429,6 +440,14 @@ example : ∃ r, resolveQuals [wOverride, wDesc] wSubP.quals wBase.quals true = 
     r.map (·.name) = [['o','v','e','r','r','i','d','e'], ['D','e','s','c']] ∧
     List.Pairwise (fun a b => ieq a.name b.name = false) wBase.quals :=
   ⟨okOr (resolveQuals [wOverride, wDesc] wSubP.quals wBase.quals true) [], by decide, by decide, by decide⟩
+
+/-- **The nearest declaration wins** (qualifiers): every qualifier an overriding element declares
+    itself is in the resolved dictionary with its own value and type, whatever the overridden element
+    carries (`Holds`; keys of the own dictionary pairwise different). -/
+theorem C12_own_qualifier_value_wins (decls : List QDecl) (own inh r : List Qual)
+    (hpw : List.Pairwise (fun a b => ieq a.name b.name = false) own)
+    (h : resolveQuals decls own inh true = .ok r) : ∀ q ∈ own, Holds r q :=
+  resolveQuals_own_wins hpw h
 
 /- Full statement demanded by the property (qualifiers propagate per their flavors, also at class
    level):   names of (resolved class).quals = names of own quals ++ names of Spec.inheritedQuals own sup.quals
